@@ -34,6 +34,7 @@ type kmSpec struct {
 	Kind string // reg | master | ephemeral | policy
 	Who  []int  // nodes (reg: all of them; master / ephemeral: the first one publishes)
 	Var  string // "" = what a well-behaved node / owner does; otherwise one deviation
+	Then *kmSpec // further transactions in the same block (built on the same pre-block state)
 }
 
 func (s kmSpec) String() string {
@@ -41,7 +42,11 @@ func (s kmSpec) String() string {
 	if v == "" {
 		v = "honest"
 	}
-	return fmt.Sprintf("km-%s(nodes=%v,%s)", s.Kind, s.Who, v)
+	out := fmt.Sprintf("km-%s(nodes=%v,%s)", s.Kind, s.Who, v)
+	if s.Then != nil {
+		out += " + " + s.Then.String()
+	}
+	return out
 }
 
 type kmView struct {
@@ -89,6 +94,11 @@ func kmChecksum(what string, gen uint64, epoch beacon.EpochTime) []byte {
 
 // kmTxs builds the transactions of a km letter on top of the reference state.
 func (b *bundle) kmTxs(s *kmSpec) []txT {
+	if s.Then != nil {
+		first := *s
+		first.Then = nil
+		return append(b.kmTxs(&first), b.kmTxs(s.Then)...)
+	}
 	k := b.w.keys
 	v := kmRead(b.ref())
 	st := v.status
@@ -369,6 +379,15 @@ func kmLetters() []letter {
 	for _, v := range []string{"same-serial", "by-e1", "other-id", "no-rotation", "bad-sig"} {
 		specs = append(specs, kmSpec{Kind: "policy", Var: v})
 	}
+	// two things in one block (hence in one epoch): a master secret proposal and a policy update, in both orders;
+	// a proposal and every node re-registering in a way that keeps it out of the next committee
+	specs = append(specs,
+		kmSpec{Kind: "master", Who: []int{0}, Then: &kmSpec{Kind: "policy"}},
+		kmSpec{Kind: "policy", Then: &kmSpec{Kind: "master", Who: []int{0}}},
+		kmSpec{Kind: "master", Who: []int{0}, Then: &kmSpec{Kind: "reg", Who: all, Var: "policy-wrong"}},
+		kmSpec{Kind: "master", Who: []int{0}, Then: &kmSpec{Kind: "reg", Who: all, Var: "bad-sig"}},
+		kmSpec{Kind: "ephemeral", Who: []int{1}, Then: &kmSpec{Kind: "master", Who: []int{0}}},
+	)
 	// CHURP (key manager secret sharing): scheme 1 created / updated by the owner, handoff applications and
 	// confirmations by the nodes
 	specs = append(specs, kmSpec{Kind: "churp-create"}, kmSpec{Kind: "churp-update"}, kmSpec{Kind: "churp-apply", Who: all}, kmSpec{Kind: "churp-apply", Who: []int{0}},
@@ -399,6 +418,9 @@ func (w *world) kmMenu() []txT {
 	var ts []txT
 	for _, l := range kmLetters() {
 		s := *l.KM
+		if s.Then != nil {
+			continue
+		}
 		if (s.Kind == "reg" || s.Kind == "churp-apply" || s.Kind == "churp-confirm") && len(s.Who) != 1 {
 			continue
 		}
